@@ -37,3 +37,81 @@ Example C08_example :
   bound_call string nat _ String.eqb body [("d"%string, 7); ("c"%string, 5)] ["a"%string] [1]
   = body (call_env string nat String.eqb ["c"%string; "a"%string; "d"%string] [5; 1; 7]).
 Proof. reflexivity. Qed.
+
+(* ================================================================== *)
+(* The same property on CONCRETE syntax: M_BindAst.bind_ast is UnboundQlassf.bind on the
+   language of M_A2A.v (tied to /repo on every run: the model's output is compared, by
+   structural equality inside coqc, with the AST the real bind() hands to the translator),
+   and `run` is the reference evaluator of that language (bool / unbounded int / tuple).
+     bind_ast f kw        Ok f' | Raise; kw = the keywords in call order, values as pv
+     run_injected kw rho  the environment after the injected assignments (None: a value the
+                          evaluator has no meaning for, i.e. float / str / None constants)
+     kw_vals kw           the keywords with the evaluator's values
+     merge_actuals        the actuals of the UNBOUND function: the bound value at every
+                          parameter position, the remaining actuals elsewhere *)
+From Coq Require Import ZArith.
+From QV Require Import M_A2A M_BindAst P_BindAst.
+
+Theorem C08a_bound_body_runs_like_unbound :
+  forall ext f kw f' rho rho',
+  bind_ast f kw = Ok f' -> run_injected kw rho = Some rho' ->
+  run ext (f_body f') rho = run ext (f_body f) rho'.
+Proof. exact bind_ast_runs. Qed.
+Print Assumptions C08a_bound_body_runs_like_unbound.
+
+Theorem C08a_bind_is_specialisation :
+  forall ext f kw f' kwv actuals all,
+  bind_ast f kw = Ok f' ->
+  NoDup (map fst (f_args f)) -> NoDup (map fst kw) ->
+  kw_vals kw = Some kwv ->
+  merge_actuals (f_args f) kwv actuals = Some all ->
+  run ext (f_body f') (call_env (map fst (f_args f')) actuals empty_env)
+  = run ext (f_body f) (call_env (map fst (f_args f)) all empty_env).
+Proof. exact bind_ast_specialises. Qed.
+Print Assumptions C08a_bind_is_specialisation.
+
+Theorem C08a_keyword_order_irrelevant :
+  forall ext f kw kw' f1 rho,
+  Permutation kw kw' -> NoDup (map fst kw) -> bind_ast f kw = Ok f1 ->
+  exists f2, bind_ast f kw' = Ok f2 /\ f_args f2 = f_args f1 /\ f_ret f2 = f_ret f1 /\
+             (forall r1, run_injected kw rho = Some r1 -> run ext (f_body f1) rho = run ext (f_body f2) rho).
+Proof. exact bind_ast_order. Qed.
+Print Assumptions C08a_keyword_order_irrelevant.
+
+Theorem C08a_wrong_keyword_set_rejected :
+  forall f kw,
+  List.length kw <> List.length (parameters f) \/ (exists k, List.In k (map fst kw) /\ ~ List.In k (parameters f)) ->
+  bind_ast f kw = Raise.
+Proof. exact bind_ast_rejects. Qed.
+Print Assumptions C08a_wrong_keyword_set_rejected.
+
+Theorem C08a_bound_function_has_no_parameter :
+  forall f kw f', bind_ast f kw = Ok f' -> parameters f' = [].
+Proof. exact bind_ast_closed. Qed.
+Print Assumptions C08a_bound_function_has_no_parameter.
+
+Theorem C08a_evaluator_reads_env_pointwise :
+  forall ext body r r', (forall x, r x = r' x) -> run ext body r = run ext body r'.
+Proof. exact run_ext. Qed.
+Print Assumptions C08a_evaluator_reads_env_pointwise.
+
+(* non-vacuity: def test(c: Parameter[int], a: Qint[2], d: Parameter[List[bool]]) -> Qint[2]:
+                    return a + c if d[1] else a
+   bound with d=[False, True], c=3 and called with a=2, against the unbound call *)
+Definition C08a_f : fundef :=
+  mkfun [("c", Some (ESubscript (EName "Parameter") (EName "int")));
+         ("a", Some (ESubscript (EName "Qint") (EConst (CInt 2%Z))));
+         ("d", Some (ESubscript (EName "Parameter") (ESubscript (EName "List") (EName "bool"))))]%string
+        (Some (ESubscript (EName "Qint") (EConst (CInt 2%Z))))%string
+        [SReturn (EIfExp (ESubscript (EName "d") (EConst (CInt 1%Z)))
+                         (EBinOp Add (EName "a") (EName "c")) (EName "a"))]%string.
+Definition C08a_kw : list (string * pv) :=
+  [("d", PSeq [PCst (CBool false); PCst (CBool true)]); ("c", PCst (CInt 3%Z))]%string.
+Example C08a_example :
+  exists f', bind_ast C08a_f C08a_kw = Ok f' /\
+    map fst (f_args f') = ["a"%string] /\
+    kw_vals C08a_kw = Some [("d"%string, VTup [VBool false; VBool true]); ("c"%string, VInt 3%Z)] /\
+    merge_actuals (f_args C08a_f) [("d"%string, VTup [VBool false; VBool true]); ("c"%string, VInt 3%Z)] [VInt 2%Z]
+      = Some [VInt 3%Z; VInt 2%Z; VTup [VBool false; VBool true]] /\
+    run (fun _ _ => None) (f_body f') (call_env ["a"%string] [VInt 2%Z] empty_env) = Some (VInt 5%Z).
+Proof. eexists. repeat split; vm_compute; reflexivity. Qed.
